@@ -423,6 +423,7 @@ func runC11(c *Ctx) {
 	checkOwnership(c)
 	checkCloseIsBarrier(c, "R10")
 	checkContextCancelledBeforeJoin(c, "R11")
+	checkHandleValidityFromTable(c, "R12")
 
 	// ---------- R8 transfer error, contexts ----------
 	{
